@@ -245,7 +245,7 @@ type c04op struct {
 	b    int
 }
 
-const c04NOps = 79
+const c04NOps = 80
 
 func (c *c04) apply(op c04op, client int) bool {
 	r := c.r
@@ -765,6 +765,38 @@ func (c *c04) apply(op c04op, client int) bool {
 			}
 			c.addOther(fmt.Sprintf("[]Tuple2 built from seq %d, later spread into immutable.Map", sid), func() string { return fmt.Sprint(ts) })
 			c.addMap(immutable.Map(c.h, ts...), fmt.Sprintf("v%d.immutable.Map(spread)", sid), sid)
+
+		case 79:
+			// the monoids over collections: Combine must build a new value, whatever its operands look like - also an
+			// allocated but empty Go map / Seq on the left (what Empty() hands out, kept by the caller)
+			gid := c.pickFrom(c.gomaps, op.sel)
+			gid2 := c.pickFrom(c.gomaps, op.sel2)
+			if gid < 0 || gid2 < 0 {
+				return
+			}
+			desc = fmt.Sprintf("monoid.MergeGoMap/MergeMap/MergeSet/MergeSeq/MergeSlice Combine on go maps %d, %d (and Empty() values kept by the caller)", gid, gid2)
+			nontriv(gid)
+			mg := monoid.MergeGoMap[int, int]()
+			e := mg.Empty()
+			c.addGoMap(e, "MergeGoMap.Empty()")
+			c.addGoMap(mg.Combine(e, c.goV[gid]), fmt.Sprintf("Combine(Empty(), g%d)", gid))
+			c.addGoMap(mg.Combine(e, c.goV[gid2]), fmt.Sprintf("Combine(Empty(), g%d) again on the same Empty()", gid2))
+			c.addGoMap(mg.Combine(c.goV[gid], c.goV[gid2]), fmt.Sprintf("Combine(g%d, g%d)", gid, gid2))
+			if mid := c.pickFrom(c.maps, op.sel); mid >= 0 {
+				mm := monoid.MergeMap[int, int]()
+				c.addMap(mm.Combine(c.mapV[mid], c.mapV[c.pickFrom(c.maps, op.sel2)]), fmt.Sprintf("MergeMap.Combine(m%d, ..)", mid), mid)
+			}
+			if sid2 := c.pickFrom(c.sets, op.sel); sid2 >= 0 {
+				ms := monoid.MergeSet[int]()
+				c.addSet(ms.Combine(c.setV[sid2], c.setV[c.pickFrom(c.sets, op.sel2)]), fmt.Sprintf("MergeSet.Combine(s%d, ..)", sid2), sid2)
+			}
+			if sid >= 0 {
+				es := monoid.MergeSeq[int]().Empty()
+				c.addSeq(es, "MergeSeq.Empty()", -1, -1)
+				c.addSeq(monoid.MergeSeq[int]().Combine(es, s), fmt.Sprintf("MergeSeq.Combine(Empty(), v%d)", sid), sid, -1)
+				c.addSeq(monoid.MergeSeq[int]().Combine(s.Take(2), s), fmt.Sprintf("MergeSeq.Combine(v%d.Take(2), v%d)", sid, sid), sid, c.vals[sid].arena)
+				c.addSeq(fp.Seq[int](monoid.MergeSlice[int]().Combine([]int(s.Take(1)), []int(s))), fmt.Sprintf("MergeSlice.Combine(v%d.Take(1), v%d)", sid, sid), sid, c.vals[sid].arena)
+			}
 
 		// ---- builders kept after Build
 		case 58, 59:
